@@ -16,6 +16,7 @@ pub fn def() -> CheckDef {
         assumptions: &["monotone simulated clock", "live dump through hook H1 reads the cache only", "no storage errors are injected"],
         probes: &["probe.action_with_open_sibling", "probe.ended_not_completed", "probe.late_action_after_end"],
         quick_cases: 3000,
+        no_shrink: &[],
     }
 }
 
